@@ -51,6 +51,7 @@ const (
 	kindF1 = "revert-through-finalise"
 	kindF2 = "lost-write-after-reverted-touch"
 	kindF3 = "mixed-flags-tombstone-reinserted"
+	sigF3c = "F3:finalise(false)-after-finalise(true)-reinserts-account-deleted-as-empty:commit-fails-on-dangling-storage-root"
 )
 
 func addr(i int) common.Address { return common.BytesToAddress([]byte{byte(i)}) }
@@ -448,10 +449,10 @@ func (h *hist) input() string { return "h " + strings.Join(h.acts, " ") }
 var knownSeen = map[string]int{}
 
 func (h *hist) violate(kind, sig, detail string) {
-	if sig == sigF1 || sig == sigF2 || sig == sigF3 || sig == sigF4 {
+	if sig == sigF1 || sig == sigF2 || sig == sigF3 || sig == sigF3c || sig == sigF4 {
 		knownSeen[sig]++
 		if knownSeen[sig] > 25 {
-			h.dropLast = h.dropLast || sig == sigF3
+			h.dropLast = h.dropLast || sig == sigF3 || sig == sigF3c
 			h.run.Count("known-pattern-not-recorded:" + kind)
 			h.nFind++
 			h.done = true
@@ -459,7 +460,7 @@ func (h *hist) violate(kind, sig, detail string) {
 		}
 	}
 	h.run.Violate(kind, sig, h.input(), detail)
-	h.dropLast = h.dropLast || sig == sigF3
+	h.dropLast = h.dropLast || sig == sigF3 || sig == sigF3c
 	h.nFind++
 	h.done = true
 }
@@ -700,6 +701,32 @@ func (h *hist) do(act string) bool {
 		ret = out
 	}
 	h.acts = append(h.acts, act)
+	if f[0] == "cm" && out == "err" {
+		// Commit returned an error (and no root): a storage trie could not be opened. The only known way there is F3: the
+		// re-inserted tombstone's leaf carries a storage root that Finalise only hashed; once a reverted re-creation drops the
+		// tombstone the account is re-read from that leaf and its storage trie is unresolvable. Pinned by: every cached object
+		// with a memoized database error is such a re-inserted account. The model has no node database: the observation is
+		// not part of the correspondence case.
+		h.obs = append(h.obs, "err")
+		h.run.Count("outcome:commit-error")
+		bad, anyErr := false, false
+		for x := 1; x <= nAddr; x++ {
+			if u.s.VerifObjErr(addr(x)) {
+				anyErr = true
+				if !u.mixed[x] {
+					bad = true
+				}
+			}
+		}
+		if anyErr && !bad {
+			h.dropLast = true
+			h.violate(kindF3, sigF3c, fmt.Sprintf("%s returned an error: the storage trie of an account re-inserted by Finalise(false) cannot be opened (%v)", act, u.s.Error()))
+		} else {
+			h.violate("commit-error", "commit-error", fmt.Sprintf("%s returned an error on a history without database faults: %v", act, u.s.Error()))
+		}
+		h.done = true
+		return false
+	}
 	if panicked {
 		h.obs = append(h.obs, "panic")
 		h.run.Count("outcome:panic:" + f[0])
